@@ -222,7 +222,13 @@ Q q_copy_n()
     if (cnt < 0) vf_witness("copy_n negative count");
     vf_assert(r == e, "copy_n: returned iterator == std"); same(d, d2, LN, "copy_n: destination == std"); sp_ok();
 }
-Q q_move() { T* a = sym(LN); T* d = sym(LN); T* d2 = dup(d, LN); long r = k_move(a, LN, d); long e = std::move(a, a + LN, d2) - d2; vf_assert(r == e, "move: returned iterator == std"); same(d, d2, LN, "move: destination == std"); sp_ok(); }
+// move/move_backward: the oracle moves from its own copy of the source (a moved-from element is valid but unspecified and never compared)
+Q q_move() { T* a = sym(LN); T* d = sym(LN); T* a2 = dup(a, LN); T* d2 = dup(d, LN); long r = k_move(a, LN, d); long e = std::move(a2, a2 + LN, d2) - d2; vf_assert(r == e, "move: returned iterator == std"); same(d, d2, LN, "move: destination == std"); sp_ok(); }
+Q q_move_overlap()
+{ // destination starts one element before first inside the same array; the last source element is moved-from afterwards (not compared)
+    T* a = sym(LN + 1); T* a2 = dup(a, LN + 1); long r = k_move(a + 1, LN, a); long e = std::move(a2 + 1, a2 + 1 + LN, a2) - a2;
+    vf_assert(r == e, "move (overlapping to the left): returned iterator == std"); same(a, a2, LN, "move (overlapping to the left): moved elements == std");
+}
 #if IT == 0 || IT == 2
 Q q_copy_backward()
 { // destination block one element larger than the source: the copy must end exactly at d_last
@@ -240,8 +246,13 @@ Q q_copy_backward_overlap()
 #if IT == 0 || IT == 2
 Q q_move_backward()
 {
-    T* a = sym(LN); T* d = sym(LN + 1); T* d2 = dup(d, LN + 1); long r = k_move_backward(a, LN, d + LN + 1, d); long e = std::move_backward(a, a + LN, d2 + LN + 1) - d2;
+    T* a = sym(LN); T* d = sym(LN + 1); T* a2 = dup(a, LN); T* d2 = dup(d, LN + 1); long r = k_move_backward(a, LN, d + LN + 1, d); long e = std::move_backward(a2, a2 + LN, d2 + LN + 1) - d2;
     vf_assert(r == e, "move_backward: returned iterator == std"); same(d, d2, LN + 1, "move_backward: destination == std");
+}
+Q q_move_backward_overlap()
+{ // shifting right by one inside the same array; the first source element is moved-from afterwards (not compared)
+    T* a = sym(LN + 1); T* a2 = dup(a, LN + 1); long r = k_move_backward(a, LN, a + LN + 1, a); long e = std::move_backward(a2, a2 + LN, a2 + LN + 1) - a2;
+    vf_assert(r == e, "move_backward (overlapping to the right): returned iterator == std"); same(a + 1, a2 + 1, LN, "move_backward (overlapping to the right): moved elements == std");
 }
 #endif
 Q q_fill() { T* a = sym(LN); T* v = val(); T* a2 = dup(a, LN); k_fill(a, LN, v); std::fill(a2, a2 + LN, *v); same(a, a2, LN, "fill == std"); }
